@@ -4,6 +4,8 @@ import WhVerif.Lemmas.C12
 import WhVerif.Model.C12Run
 import WhVerif.Spec.C12Run
 import WhVerif.Lemmas.C12Run
+import WhVerif.Lemmas.C12Len
+import WhVerif.Lemmas.C12File
 /-!
 # C12 — stats counts add up and describe the phase sets present in the file
 
@@ -651,5 +653,147 @@ theorem nonoverlap_sort_independent (sort : List Block → List Block) (hsort : 
   exact hlt.imp (fun hab => Nat.ne_of_lt hab)
 
 example : IsSort sortBlocks := fun l => ⟨sortBlocks_perm l, sortBlocks_sorted l⟩
+
+/-! ## the block lengths of the ALL row (round 10, seed C12-h) -/
+
+/-- **all_row_block_lengths_are_concat**: the block lengths behind the ALL row (`bp_per_block_{sum,min,max,median,avg}` are
+computed from this list) are, as a multiset, the concatenation of the piece-length lists of the chromosome rows, in ascending
+order — two pieces on different chromosomes count twice even if their start and end coordinates coincide; so does their
+number, and the ALL row's `bp_per_block_sum` is the sum of the rows'. -/
+theorem all_row_block_lengths_are_concat (i : RunIn) (o : RunOut) (h : run i = .ok o) (a : Stats) (ha : o.all = some a) :
+    (detailed a).lengths.Perm (o.parts.flatMap (fun p => (detailed p.stats).lengths)) ∧
+    (detailed a).lengths.Pairwise (· ≤ ·) ∧
+    (detailed a).lengths.length = (o.parts.map (fun p => (detailed p.stats).lengths.length)).sum ∧
+    (∀ x, (detailed a).lengths.count x = (o.parts.map (fun p => (detailed p.stats).lengths.count x)).sum) := by
+  obtain ⟨hl, hall⟩ := run_ok i o h
+  rw [hall] at ha
+  split at ha
+  · cases ha
+    have hc : ∀ s ∈ o.parts.map (·.stats), s.Consistent := by
+      intro s hs
+      obtain ⟨p, hp, rfl⟩ := List.mem_map.mp hs
+      exact chrom_consistent _ _ _ (runLoop_parts _ _ _ _ _ _ _ hl p hp).1
+    have hp := all_lengths_perm (o.parts.map (·.stats)) hc
+    rw [List.flatMap_map] at hp
+    have hp : (detailed (totalStats o.parts)).lengths.Perm (o.parts.flatMap (fun p => (detailed p.stats).lengths)) := hp
+    refine ⟨hp, lengths_sorted _, ?_, ?_⟩
+    · rw [hp.length_eq, List.length_flatMap]
+    · intro x
+      rw [hp.count_eq, List.count_flatMap]
+      rfl
+  · cases ha
+
+/-- non-vacuity, and the case of seed C12-h: two chromosomes with the same piece (100, 200); the ALL row has the length 100
+twice (and two blocks) -/
+example : ∃ i o a, run i = .ok o ∧ o.all = some a ∧ o.parts.map (fun p => (detailed p.stats).lengths) = [[100], [100]] ∧
+    (detailed a).lengths = [100, 100] ∧ (detailed a).blocks = 2 := ⟨twinRun, twinRun_ok⟩
+
+/-! ## `run_stats` on a multi-sample file, on top of the whole-file reader (`Model/C12File.lean`, round 10) -/
+
+section File
+open WhVerif.C12File WhVerif.Lemmas.C12File
+
+/-- **stats_run_refines_reader**: in a run that succeeds, every reported chromosome carries the statistics of the variant
+list `get_phase_blocks` sees, and that list is the selected sample's column (`varOfRow … si`) of the rows the whole-file reader
+`C09.readChromP` makes of a planned group / fetch (all samples checked, ploidy carried); for an iterated file that
+`C09.readFile` accepts, it is the selected sample's column of one of `readFile`'s tables of that name. -/
+theorem stats_run_refines_reader (i : FileIn) (o : RunOut) (h : fileRun i = .ok o) :
+    ∃ si, selectSample i.samples i.sample = .ok si ∧
+      (∀ p ∈ o.parts, chromStats i.flags p.vars = some p.stats ∧
+        ∃ recs pl0 st1 pl1 rows, (p.name, some recs) ∈ fetchPlan i (unpackChromosomes i.given) ∧
+          WhVerif.C09.readChromP i.onlySnvs none pl0 none recs = .ok (st1, pl1, rows) ∧
+          p.vars = rows.map (varOfRow i.flags si)) ∧
+      ((i.indexed = false ∨ unpackChromosomes i.given = []) → ∀ pl tabs,
+        WhVerif.C09.readFile i.onlySnvs none i.groups = .ok (pl, tabs) →
+        ∀ p ∈ o.parts, ∃ t ∈ tabs, p.name = t.1 ∧ p.vars = t.2.map (varOfRow i.flags si)) := by
+  obtain ⟨si, hs, hl, _⟩ := fileRun_ok i o h
+  refine ⟨si, hs, ?_, ?_⟩
+  · intro p hp
+    obtain ⟨h1, h2⟩ := fileLoop_parts _ _ _ _ _ _ _ hl p hp
+    exact ⟨h1, fileTables_mem _ _ _ _ _ _ _ h2⟩
+  · intro hplain pl tabs hr p hp
+    obtain ⟨_, h2⟩ := fileLoop_parts _ _ _ _ _ _ _ hl p hp
+    rw [fetchPlan_plain i _ hplain, (fileTables_readFile _ _ _ i.groups none).1 pl tabs hr] at h2
+    obtain ⟨t, ht, he⟩ := List.mem_map.mp h2
+    have he1 : t.1 = p.name := congrArg Prod.fst he
+    have he2 : Except.ok (t.2.map (varOfRow i.flags si)) = (Except.ok p.vars : Except FileErr (List Var)) := congrArg Prod.snd he
+    exact ⟨t, ht, he1.symm, (Except.ok.inj he2).symm⟩
+
+/- full statement wanted: `fileRun i = .error (.reader e) ↔ C09.readFile i.onlySnvs none i.groups = .error e`.  The "if"
+direction is false as it stands — with `--chromosome` the loop may leave before the table that raises is read (the early
+exit), and on an indexed file only the given chromosomes are read; for an iterated file without `--chromosome` it needs
+"no `TypeError` in the block list" (`fixPs`) in front of the raising table, not done here. -/
+/-- **stats_error_iff_reader_error_partial**: on an iterated file, a run that ends in `MixedPhasingError` / `PloidyError` /
+`VcfNotSortedError` / a malformed HP field ends so because the reader model raises exactly that error on the file —
+whichever sample causes it; if `C09.readFile` accepts the file, the run raises no reader error. -/
+theorem stats_error_iff_reader_error_partial (i : FileIn) (e : WhVerif.C09.Err)
+    (hplain : i.indexed = false ∨ unpackChromosomes i.given = []) (h : fileRun i = .error (.reader e)) :
+    WhVerif.C09.readFile i.onlySnvs none i.groups = .error e := by
+  obtain ⟨si, c, _, hc⟩ := fileRun_reader_err i e h
+  rw [fetchPlan_plain i _ hplain] at hc
+  obtain ⟨hok, herr⟩ := fileTables_readFile i.flags i.onlySnvs si i.groups none
+  cases hr : WhVerif.C09.readFile i.onlySnvs none i.groups with
+  | ok v =>
+    rw [hok v.1 v.2 hr] at hc
+    obtain ⟨t, _, he⟩ := List.mem_map.mp hc
+    cases he
+  | error e' =>
+    have := (herr e' hr).2 _ hc _ rfl
+    cases this
+    rfl
+
+/-- **file_counts_the_selected_sample**: the counts of every row are the independent counts over the selected sample's
+column of the reader's rows (no assumption on the reader left: its checks over all samples are in `fileRun`). -/
+theorem file_counts_the_selected_sample (i : FileIn) (hf : i.flags.fixMissing = true) (o : RunOut) (h : fileRun i = .ok o) :
+    ∀ p ∈ o.parts,
+      (detailed p.stats).variants = specVariants p.vars ∧ (detailed p.stats).het = specHet p.vars ∧
+      (detailed p.stats).hetSnvs = specHetSnvs p.vars ∧ (detailed p.stats).unphased = specUnphased p.vars ∧
+      (detailed p.stats).phased = specPhased p.vars ∧ (detailed p.stats).singletons = specSingletons p.vars ∧
+      (detailed p.stats).blocks = specBlocks p.vars ∧ (detailed p.stats).phasedSnvs = specPhasedSnvs p.vars := by
+  obtain ⟨si, _, hl, _⟩ := fileRun_ok i o h
+  intro p hp
+  exact counts_eq_independent _ hf _ _ (fileLoop_parts _ _ _ _ _ _ _ hl p hp).1
+
+/-- **file_sum_identity_and_all_row**: on the multi-sample file, too, every row and the ALL row satisfy phased + unphased +
+singletons = heterozygous, and the ALL row is the column-wise sum of the chromosome rows; its block lengths are the
+concatenation of theirs. -/
+theorem file_sum_identity_and_all_row (i : FileIn) (o : RunOut) (h : fileRun i = .ok o) :
+    (∀ p ∈ o.parts, (detailed p.stats).phased + (detailed p.stats).unphased + (detailed p.stats).singletons
+      = (detailed p.stats).het) ∧
+    ∀ a, o.all = some a →
+      (detailed a).phased + (detailed a).unphased + (detailed a).singletons = (detailed a).het ∧
+      (detailed a).additive
+        = (o.parts.map (fun p => (detailed p.stats).additive)).foldl addVec (detailed ({} : Stats)).additive ∧
+      (detailed a).lengths.Perm (o.parts.flatMap (fun p => (detailed p.stats).lengths)) := by
+  obtain ⟨si, _, hl, hall⟩ := fileRun_ok i o h
+  have hparts := fileLoop_parts _ _ _ _ _ _ _ hl
+  refine ⟨fun p hp => sum_identity _ _ _ (hparts p hp).1, ?_⟩
+  intro a ha
+  rw [hall] at ha
+  split at ha
+  · cases ha
+    have hc : ∀ s ∈ o.parts.map (·.stats), s.Consistent := by
+      intro s hs
+      obtain ⟨p, hp, rfl⟩ := List.mem_map.mp hs
+      exact chrom_consistent _ _ _ (hparts p hp).1
+    have hm := mapM_parts i.flags o.parts (fun p hp => (hparts p hp).1)
+    have h1 := sum_identity_all i.flags _ _ hm
+    have h2 := all_row_is_sum (o.parts.map (·.stats)) hc
+    rw [List.map_map] at h2
+    have h3 := all_lengths_perm (o.parts.map (·.stats)) hc
+    rw [List.flatMap_map] at h3
+    exact ⟨h1, h2, h3⟩
+  · cases ha
+
+/-- non-vacuity: a two-sample file, `--sample S2`: one chromosome row from S2's column (S2's call is phased, S1's is not) -/
+example : ∃ i o, fileRun i = .ok o ∧ i.flags.fixMissing = true ∧ o.parts.map (·.vars) = [[⟨10, true, .het, some (some 7)⟩]] :=
+  ⟨fxIn c2ps (some "S2"), _, fx_ok, rfl, rfl⟩
+/-- … the run for the default sample S1 ends in `MixedPhasingError` because of the call of S2 (PS and HP at once); a sample
+the file lacks is the error exit -/
+example : ∃ i e, (i.indexed = false ∨ unpackChromosomes i.given = []) ∧ fileRun i = .error (.reader e) :=
+  ⟨fxIn c2mixed none, .mixed, Or.inl rfl, fx_err⟩
+example : fileRun (fxIn c2ps (some "S9")) = .error .sampleNotFound := fx_nf
+
+end File
 
 end WhVerif.Props.C12
